@@ -38,12 +38,12 @@ def shape_of(v) -> str:
     return "unknown"
 
 
-def handled_shapes(loop: ast.For) -> set[str]:
+def handled_shapes(loop: ast.For, m=None, fn=None) -> set[str]:
     """Which attribute shapes the attribute-conversion loop of insert_scan_result converts to JSON-native values."""
     ok = {"int", "scalar", "none", "list[int]", "list[]", "tuple[int]", "dict[]", "dict[int:int]", "list[scalar]"}
     for n in ast.walk(loop):
         if isinstance(n, ast.If):
-            t = ast.unparse(n.test)
+            t = (m.mtext(fn, n.test) if m is not None else ast.unparse(n.test)).replace("_L", "value")
             if "isinstance(value, bytes | bytearray)" in t or "isinstance(value, (bytes, bytearray))" in t or "isinstance(value, bytes)" in t:
                 ok.add("bytes")
             if "isinstance(value, list)" in t and "bytes" in t:
@@ -103,6 +103,14 @@ def run(m: Model, r: Report, tier: str) -> None:
     if len(tries) != 1:
         raise AnalysisError(f"{req.qualname}: try around the exchange not found")
     tr = tries[0]
+    icalls0 = [n for n in ast.walk(req.node) if isinstance(n, ast.Call) and isinstance(n.func, ast.Attribute) and n.func.attr == "insert_scan_result"]
+    hins0 = m.require_function(f"{HANDLER}.DBHandler.insert_scan_result")
+    roles: dict[str, str] = {}
+    if icalls0:
+        roles = dict(zip(hins0.params()[1:], [ast.unparse(a) for a in icalls0[0].args]))
+        for kw in icalls0[0].keywords:
+            roles[kw.arg] = ast.unparse(kw.value)
+    EV, RV, SV, TV, MV = (roles.get(k, k) for k in ("exception", "response", "send_time", "receive_time", "log_mode"))
     types = [ast.unparse(h.type) if h.type else "<bare>" for h in tr.handlers]
     r.check(types[-1:] == ["Exception"] and "ResponseException" in types, "R2", f"{req.qualname}#handlers",
             f"handlers {types}: need ResponseException (carries the reply) and a final Exception handler", loc=req.loc)
@@ -110,9 +118,9 @@ def run(m: Model, r: Report, tier: str) -> None:
         name = h.name
         assigns = {ast.unparse(s.targets[0]): ast.unparse(s.value) for s in h.body if isinstance(s, ast.Assign)}
         reraises = isinstance(h.body[-1], ast.Raise) and h.body[-1].exc is None
-        okh = assigns.get("exception") == name and reraises
+        okh = assigns.get(EV) == name and reraises
         if h.type is not None and ast.unparse(h.type) == "ResponseException":
-            okh = okh and assigns.get("response") == f"{name}.response"
+            okh = okh and assigns.get(RV) == f"{name}.response"
         r.check(okh, "R2", f"{req.qualname}#handler:{ast.unparse(h.type) if h.type else 'bare'}",
                 f"handler assigns {assigns}, re-raises={reraises}: the row would lack the exception / reply or the error would be swallowed", loc=req.loc)
     icalls = [n for n in ast.walk(req.node) if isinstance(n, ast.Call) and isinstance(n.func, ast.Attribute) and n.func.attr == "insert_scan_result"]
@@ -122,9 +130,14 @@ def run(m: Model, r: Report, tier: str) -> None:
         bound = dict(zip(params, [ast.unparse(a) for a in c.args]))
         for kw in c.keywords:
             bound[kw.arg] = ast.unparse(kw.value)
-        want = {"response": "response", "exception": "exception", "send_time": "send_time", "receive_time": "receive_time",
-                "state": "self.state.__dict__", "log_mode": "mode"}
+        want = {"state": "self.state.__dict__"}
         bad = {k: bound.get(k) for k, v in want.items() if bound.get(k) != v}
+        for k in ("response", "exception", "send_time", "receive_time", "log_mode"):
+            if not (bound.get(k) or "").isidentifier():
+                bad[k] = bound.get(k)
+        # the variable handed over as `response` must be the one the exchange assigns; `exception` the one the handlers assign
+        if not any(isinstance(n, ast.Assign) and ast.unparse(n.targets[0]) == RV and "super()._request(" in ast.unparse(n.value) for n in ast.walk(req.node)):
+            bad["response"] = f"{RV} is not the result of the exchange"
         r.check(not bad, "R2", f"{req.qualname}#insert-arguments", f"insert_scan_result receives {bad} (expected {want})", loc=req.loc)
         r.check("parse_dynamic(request.pdu)" in bound.get("request", "") or bound.get("request") == "request", "R2",
                 f"{req.qualname}#insert-request", f"request argument is {bound.get('request')}", loc=req.loc)
@@ -145,11 +158,11 @@ def run(m: Model, r: Report, tier: str) -> None:
 
     # ---------------------------------------------------------------- R4
     dom = g.dominators()
-    send = [n.id for n in g.nodes.values() if n.kind == "stmt" and isinstance(n.ast, ast.Assign) and ast.unparse(n.ast.targets[0]) == "send_time"]
+    send = [n.id for n in g.nodes.values() if n.kind == "stmt" and isinstance(n.ast, ast.Assign) and ast.unparse(n.ast.targets[0]) == SV and "datetime.now" in ast.unparse(n.ast.value)]
     r.check(len(send) == 1 and send[0] in dom[ex.id], "R4", f"{req.qualname}#send-time",
             "send_time is not assigned exactly once on every path before the exchange", loc=req.loc)
     nsucc = [b for b, k in g.succ[ex.id] if k == "n"]
-    r.check(len(nsucc) == 1 and isinstance(g.nodes[nsucc[0]].ast, ast.Assign) and ast.unparse(g.nodes[nsucc[0]].ast.targets[0]) == "receive_time",
+    r.check(len(nsucc) == 1 and isinstance(g.nodes[nsucc[0]].ast, ast.Assign) and ast.unparse(g.nodes[nsucc[0]].ast.targets[0]) == TV and "datetime.now" in ast.unparse(g.nodes[nsucc[0]].ast.value),
             "R4", f"{req.qualname}#receive-time", "receive_time is not taken directly after the awaited exchange", loc=req.loc)
 
     # ---------------------------------------------------------------- R5
@@ -171,7 +184,7 @@ def run(m: Model, r: Report, tier: str) -> None:
     cols = sqlcheck.insert_columns(lits[0])
     tup = None
     for n in ast.walk(hins.node):
-        if isinstance(n, ast.Assign) and ast.unparse(n.targets[0]) == "query_parameter" and isinstance(n.value, ast.Tuple):
+        if isinstance(n, ast.Assign) and isinstance(n.value, ast.Tuple) and len(n.value.elts) >= 8 and "self.scan_run" in ast.unparse(n.value):
             tup = n.value
     if cols is None or tup is None:
         raise AnalysisError("scan_result INSERT column list / query_parameter tuple not found")
@@ -188,12 +201,12 @@ def run(m: Model, r: Report, tier: str) -> None:
         "log_mode": ["log_mode.name"],
     }
     for cname, e in zip(cols, tup.elts):
-        txt = ast.unparse(e)
+        txt = m.mtext(hins, e)
         want = expect.get(cname)
         if want is None:
             r.violation("R5", f"{hins.qualname}#column:{cname}", f"unknown scan_result column {cname}", hins.loc)
             continue
-        r.check(all(w in txt for w in want), "R5", f"{hins.qualname}#column:{cname}",
+        r.check(all(m.mpat(hins, w) in txt for w in want), "R5", f"{hins.qualname}#column:{cname}",
                 f"column {cname} is bound to `{txt[:100]}`; expected an expression containing {want}", loc=hins.loc)
 
     # ---------------------------------------------------------------- R6
@@ -201,7 +214,7 @@ def run(m: Model, r: Report, tier: str) -> None:
     by_side = {}
     for l in loops:
         side = "request" if ast.unparse(l.iter).startswith("request.") else "response"
-        by_side[side] = handled_shapes(l)
+        by_side[side] = handled_shapes(l, m, hins)
     if set(by_side) != {"request", "response"}:
         raise AnalysisError(f"{hins.qualname}: attribute conversion loops not found ({list(by_side)})")
     reg = Registry(m)
@@ -251,8 +264,8 @@ def run(m: Model, r: Report, tier: str) -> None:
     # ---------------------------------------------------------------- R8
     ifs = [n for n in ast.walk(req.node) if isinstance(n, ast.If) and "ANALYZE" in ast.unparse(n.test)]
     okm = len(ifs) == 1 and "'ANALYZE' in config.tags" in ast.unparse(ifs[0].test) and \
-        any(ast.unparse(s) == "mode = LogMode.emphasized" for s in ifs[0].body)
-    default = any(isinstance(n, ast.Assign) and ast.unparse(n) == "mode = LogMode.implicit" for n in ast.walk(req.node))
+        any(ast.unparse(s) == f"{MV} = LogMode.emphasized" for s in ifs[0].body)
+    default = any(isinstance(n, ast.Assign) and ast.unparse(n) == f"{MV} = LogMode.implicit" for n in ast.walk(req.node))
     if okm:
         t_ = ifs[0].test
         okm = isinstance(t_, ast.BoolOp) and isinstance(t_.op, ast.And) and [ast.unparse(v) for v in t_.values] == \
